@@ -292,6 +292,7 @@ var scenarioTable = map[string]func() Scenario{
 	"S-leased": scLeased,
 	"S-life":   scLife,
 	"S-meter":  scMeter,
+	"S-3bids":  sc3Bids,
 	"S-attr":   scAttr,
 	"S-attr-leased": scAttrLeased,
 	"S-cert":   scCert(certSerials),
